@@ -26,6 +26,22 @@ CORPUS = [
 ]
 
 
+def _deep(body):
+    return "from nada_dsl import *\ndef nada_main():\n    p = Party(name='P')\n    a = SecretInteger(Input(name='a', party=p))\n" + body + "\n    return [Output(a, 'o', p)]\n"
+
+
+# programs nested more deeply than a recursive analysis can follow with Python's default recursion limit (and, further up,
+# than the parser accepts): operator chains, unary chains, attribute / call / subscript chains, brackets, nested blocks
+DEEP = [_deep("    x = " + "+".join(["1"] * n)) for n in (950, 1000, 1200, 1500, 2000, 2900, 3100, 5000)] + \
+       [_deep("    x = " + " * ".join(["a"] * n)) for n in (1100, 1700)] + \
+       [_deep("    x = " + "-" * 1200 + "1"), _deep("    x = " + "not " * 1200 + "True"), _deep("    x = a" + ".b" * 1500),
+        _deep("    x = f" + "()" * 1300), _deep("    x = l" + "[0]" * 1300), _deep("    x = " + "(" * 150 + "a" + ")" * 150),
+        _deep("    x = " + "[" * 180 + "]" * 180), _deep("    x = " + " and ".join(["True"] * 3000)),
+        _deep("    x = a" + "".join(f".if_else(a, a)" for _ in range(400))), _deep("    x = " + "sum([" * 150 + "a" + "])" * 150),
+        _deep("".join("    " + "    " * i + "if a:\n" for i in range(60)) + "    " * 61 + "pass"),
+        _deep("    x = " + " < ".join(["a"] * 1500))]
+
+
 BASES = ["bool", "int", "str", "Integer", "PublicInteger", "SecretInteger", "Boolean", "PublicBoolean", "SecretBoolean", "range", "Party"]
 
 
@@ -134,8 +150,8 @@ def run(res, tier):
     n = 250 if tier == "quick" else 8000
     rng = R.make("C16")
     modes, outcomes, classes = {}, {}, set()
-    sources = [("corpus", s) for s in CORPUS]
-    while len(sources) < n + len(CORPUS):
+    sources = [("corpus", s) for s in CORPUS] + [("deep", s) for s in DEEP]
+    while len(sources) < n + len(CORPUS) + len(DEEP):
         sources.append(pysrc.generate(rng))
     nontrivial = set()
     samples = []
